@@ -987,6 +987,11 @@ public:
     return cons_.at(i).IsUnused();
   }
 
+  /// Is constraint \a i reformulated (or eliminated)?
+  bool IsBridged(int i) const {
+    return cons_.at(i).IsBridged();
+  }
+
   /// Copy names from ValueNodes
   void CopyNamesFromValueNodes() override {
     const auto& vn = GetValueNode().GetStrVec();
